@@ -111,3 +111,13 @@ package network
 //@   requires n != nil
 //@   modifies nothing
 //@   ensures [def] result == len(n.allNodes) + len(n.controlNodes)
+
+// ---- C06 / C13: node constructors ----------------------------------------------------------------
+//@ func NewNNodeCopy
+//@   props C06
+//@   requires n != nil
+//@   modifies nothing
+//@   ensures [fresh] fresh(result) && fresh(result.Incoming) && fresh(result.Outgoing)
+//@   ensures [genetic] result.Id == n.Id && result.NeuronType == n.NeuronType && result.ActivationType == n.ActivationType && result.Trait == t
+//@   ensures [empty] len(result.Incoming) == 0 && len(result.Outgoing) == 0 && result.PhenotypeAnalogue == nil
+//@   ensures [runtime] result.Activation == 0.0 && result.ActivationsCount == 0 && result.ActivationSum == 0.0 && result.lastActivation == 0.0 && result.lastActivation2 == 0.0 && !result.isActive && !result.visited
